@@ -15,11 +15,16 @@ namespace Blackbird
 
 variable {K : Type} [Scalar K]
 
+theorem stmtEffect_order (o₁ o₂ : SetOrder Int) (incs : Includes K) (T : Tables K) (s : Stmt) :
+    stmtEffect o₁ incs T s = stmtEffect o₂ incs T s := by
+  unfold stmtEffect
+  simp only [sortedModes_order_independent o₁ o₂]
+
 theorem execStmt_order (o₁ o₂ : SetOrder Int) (incs : Includes K) :
     execStmt o₁ incs = execStmt o₂ incs := by
   funext st s
   unfold execStmt
-  simp only [sortedModes_order_independent o₁ o₂]
+  rw [stmtEffect_order o₁ o₂]
 
 theorem execLoopVals_order (o₁ o₂ : SetOrder Int) (incs : Includes K) (ty : VarType) (x : String)
     (body : List Stmt) (vals : List (Val K)) (st : LState K) :
